@@ -70,7 +70,7 @@ func (r rawReq) line() string {
 	if r.EncS >= 0 {
 		enc = fmt.Sprintf("%d.%d", r.EncS, r.EncX)
 	}
-	return fmt.Sprintf("%s:%d:%s:%d:%s:%s:%d:%s:%s:%s:%s:%s", r.Tok, r.Typ, b01(r.Wf), r.Dev, optS(r.NonceOf), optS(r.Signer),
+	return fmt.Sprintf("%s:%d:%s:%d:%s:%s:%d:%s:%s:%s:%s:%s", r.Tok, r.Typ, b01(r.Wf), r.Dev, optS(r.NonceOf), optS(max(r.Signer, -1)),
 		r.Xb, enc, b01(r.Hmac), b01(r.Dm), b01(r.KexOk), b01(r.IdxOk))
 }
 
@@ -318,7 +318,26 @@ func (rw *rawWorld) signerKey(signer int) crypto.Signer {
 	if signer >= 1 && signer < len(rw.devs) {
 		return rw.devs[signer].d.Key
 	}
+	if signer == -2 {
+		// a stranger whose key is of another family than the device's (an EC key against an RSA device and the reverse):
+		// the algorithm named in the token then does not fit the key the owner verifies with
+		return lab.Key(rw.otherKind().PoolKey + "/ca")
+	}
 	return lab.Key(rw.kind.PoolKey + "/ca")
+}
+
+func (rw *rawWorld) otherKind() lab.Kind {
+	if rw.kind.RSABits != 0 {
+		return lab.KindByName("P-256")
+	}
+	return lab.KindByName("RSA2048RESTR")
+}
+
+func (rw *rawWorld) signerOpts(signer int) crypto.SignerOpts {
+	if signer == -2 {
+		return signOptsOf(rw.otherKind())
+	}
+	return signOptsOf(rw.kind)
 }
 
 func garbage(variant string, honest []byte) []byte {
@@ -445,7 +464,7 @@ func (rw *rawWorld) body(r rawReq) []byte {
 			tok.Header.Unprotected = map[cose.Label]any{{Int64: eatUnprot}: setup}
 		}
 		tok.Payload = cbor.NewByteWrap(eat)
-		if err := tok.Sign(rw.signerKey(r.Signer), nil, nil, signOptsOf(rw.kind)); err != nil {
+		if err := tok.Sign(rw.signerKey(r.Signer), nil, nil, rw.signerOpts(r.Signer)); err != nil {
 			fatal("sign EAT: %v", err)
 		}
 		honest = cborBytes(tok.Tag())
